@@ -285,6 +285,9 @@ def ElfDesc.wf (env : Env) (d : ElfDesc) : Bool :=
    | some st => d.sections.all fun s => decide (getNatD st.hdr "sh_offset" + s.nameOff < 2 ^ 63)
    | none => true) &&
   -- the string table section itself is not flagged compressed, and every section is interpretable
-  (List.range n).all (fun i => d.secOk env 4 i)
+  (List.range n).all (fun i => d.secOk env 4 i) &&
+  -- a file without a section header table has no section-name string table: e_shstrndx = SHN_UNDEF
+  -- (gABI: "If the file has no section name string table, this member holds the value SHN_UNDEF")
+  (n != 0 || d.shstrndx == 0)
 
 end PyElf.Spec
